@@ -127,3 +127,15 @@ Proofs/MapLemmas.vos Proofs/MapLemmas.vok Proofs/MapLemmas.required_vos: Proofs/
 Proofs/Refine.vo Proofs/Refine.glob Proofs/Refine.v.beautified Proofs/Refine.required_vo: Proofs/Refine.v Model/Types.vo Model/Map.vo Model/Side.vo Model/Book.vo Model/Obs.vo Spec/RefBook.vo Proofs/Basic.vo Proofs/MapLemmas.vo
 Proofs/Refine.vio: Proofs/Refine.v Model/Types.vio Model/Map.vio Model/Side.vio Model/Book.vio Model/Obs.vio Spec/RefBook.vio Proofs/Basic.vio Proofs/MapLemmas.vio
 Proofs/Refine.vos Proofs/Refine.vok Proofs/Refine.required_vos: Proofs/Refine.v Model/Types.vos Model/Map.vos Model/Side.vos Model/Book.vos Model/Obs.vos Spec/RefBook.vos Proofs/Basic.vos Proofs/MapLemmas.vos
+Proofs/RefProps.vo Proofs/RefProps.glob Proofs/RefProps.v.beautified Proofs/RefProps.required_vo: Proofs/RefProps.v Model/Types.vo Model/Book.vo Model/Obs.vo Spec/RefBook.vo Proofs/Basic.vo Proofs/Ledger.vo
+Proofs/RefProps.vio: Proofs/RefProps.v Model/Types.vio Model/Book.vio Model/Obs.vio Spec/RefBook.vio Proofs/Basic.vio Proofs/Ledger.vio
+Proofs/RefProps.vos Proofs/RefProps.vok Proofs/RefProps.required_vos: Proofs/RefProps.v Model/Types.vos Model/Book.vos Model/Obs.vos Spec/RefBook.vos Proofs/Basic.vos Proofs/Ledger.vos
+Properties/C01.vo Properties/C01.glob Properties/C01.v.beautified Properties/C01.required_vo: Properties/C01.v Model/Types.vo Model/Map.vo Model/Side.vo Model/Book.vo Model/Obs.vo Spec/RefBook.vo Proofs/Ledger.vo Proofs/Refine.vo Proofs/RefProps.vo
+Properties/C01.vio: Properties/C01.v Model/Types.vio Model/Map.vio Model/Side.vio Model/Book.vio Model/Obs.vio Spec/RefBook.vio Proofs/Ledger.vio Proofs/Refine.vio Proofs/RefProps.vio
+Properties/C01.vos Properties/C01.vok Properties/C01.required_vos: Properties/C01.v Model/Types.vos Model/Map.vos Model/Side.vos Model/Book.vos Model/Obs.vos Spec/RefBook.vos Proofs/Ledger.vos Proofs/Refine.vos Proofs/RefProps.vos
+Properties/C05.vo Properties/C05.glob Properties/C05.v.beautified Properties/C05.required_vo: Properties/C05.v Model/Types.vo Model/Map.vo Model/Side.vo Model/Book.vo Model/Obs.vo Model/Rng.vo Model/Env.vo Spec/RefBook.vo Proofs/MapLemmas.vo Proofs/Refine.vo Proofs/EnvProps.vo
+Properties/C05.vio: Properties/C05.v Model/Types.vio Model/Map.vio Model/Side.vio Model/Book.vio Model/Obs.vio Model/Rng.vio Model/Env.vio Spec/RefBook.vio Proofs/MapLemmas.vio Proofs/Refine.vio Proofs/EnvProps.vio
+Properties/C05.vos Properties/C05.vok Properties/C05.required_vos: Properties/C05.v Model/Types.vos Model/Map.vos Model/Side.vos Model/Book.vos Model/Obs.vos Model/Rng.vos Model/Env.vos Spec/RefBook.vos Proofs/MapLemmas.vos Proofs/Refine.vos Proofs/EnvProps.vos
+Properties/C06.vo Properties/C06.glob Properties/C06.v.beautified Properties/C06.required_vo: Properties/C06.v Model/Types.vo Model/Book.vo Model/Obs.vo Spec/RefBook.vo Proofs/Refine.vo Proofs/RefProps.vo
+Properties/C06.vio: Properties/C06.v Model/Types.vio Model/Book.vio Model/Obs.vio Spec/RefBook.vio Proofs/Refine.vio Proofs/RefProps.vio
+Properties/C06.vos Properties/C06.vok Properties/C06.required_vos: Properties/C06.v Model/Types.vos Model/Book.vos Model/Obs.vos Spec/RefBook.vos Proofs/Refine.vos Proofs/RefProps.vos
